@@ -167,6 +167,9 @@ class NumpyProxy(types.ModuleType):
         # |d| <= at + rt*|y|   <=>   (y>=0 and |d| <= at+rt*y) or (y<0 and |d| <= at-rt*y)
         if rt.is_zero():
             return X.cond_abs_le(d, at)
+        if y.is_const():
+            # comparison with a constant: the sign of y is known, no case split
+            return X.cond_abs_le(d, at + rt * abs(Fraction(y.const_value())))
         return X.cond_or(
             X.cond_and(X.cond_rel(">=", y), X.cond_abs_le(d, at + rt * y)),
             X.cond_and(X.cond_rel("<", y), X.cond_abs_le(d, at - rt * y)))
